@@ -19,12 +19,11 @@ Definition is_close (c : bcall) : bool := match c with BClose _ => true | _ => f
 Lemma closes_cons_other c l : is_close c = false -> closes (c :: l) = closes l.
 Proof. destruct c; cbn; intros; auto; discriminate. Qed.
 
-(** the handles a backend call operates on (the File it is invoked on and File arguments).
-    Renamed is left out: that the fidRefs notifyNameChange finds in the path tree are live is part
-    of the tree invariant (C08), not of this development. *)
+(** the handles a backend call operates on: the File it is invoked on and its File arguments *)
 Definition uses (c : bcall) : list nat :=
   match c with
-  | BAttach _ | BRenamed _ _ _ => []
+  | BAttach _ => []
+  | BRenamed h ph _ => [h; ph]
   | BWalk h _ _ | BWalkGetAttr h _ _ | BGetAttr h | BOpen h _ | BCreate h _ _ | BMk _ h _
   | BUnlinkAt h _ | BClose h | BUse _ h => [h]
   | BLink h t _ => [h; t]
